@@ -50,6 +50,15 @@ structure State where
   phaseSize : Nat := 6
   /-- `spaces[Data].sent_with_keys` -/
   swk : Nat := 0
+  /-- `spaces[Data].next_packet_number` (the component disables the random skipping of packet numbers) -/
+  nextPn : Nat := 0
+  /-- `spaces[Data].largest_acked_packet` -/
+  largestAcked : Option Nat := none
+  /-- `key_phase_first_pn`: lowest packet number that can have been sent in the current key phase, once a key update
+      has taken place -/
+  firstPn : Option Nat := none
+  /-- GHOST (not in the code, not printed): every 1-RTT packet sent, as (packet number, generation of its keys) -/
+  sentLog : List (Nat × Nat) := []
   rxPacket : Nat := 0
   dedup : Dedup.Dedup := Dedup.init
   authed : Nat := 0
@@ -152,7 +161,8 @@ def updateKeys (s : State) (endPacket : Option (Nat × Nat)) (remote : Bool) : O
       sess := s.sess + 1
       swk := 0
       prev := some ⟨c, endPacket, remote⟩
-      phase := !s.phase }
+      phase := !s.phase
+      firstPn := some s.nextPn }
   | _, _ => none
 
 inductive Dec where
@@ -224,11 +234,23 @@ def handlePacket (s : State) (p : Pkt) : State × RxOut :=
         else s2
       (s3, .res true (decide (s3.life ≠ .drained)))
 
-/-- `Connection::force_key_update` -/
+/-- the acknowledgement guard of `force_key_update` (RFC 9001 6.1): a key update has taken place and no packet that can
+    have been sent in the current key phase is acknowledged.  (The refusal also calls `ping()`, which is invisible here:
+    `send` pings anyway.) -/
+def unconfirmed (s : State) : Bool :=
+  match s.firstPn with
+  | some first =>
+    match s.largestAcked with
+    | none => true
+    | some pn => Gen.kuAckedBelowPhase pn first
+  | none => false
+
+/-- `Connection::force_key_update` (the handshake of the component's connection is confirmed: Handshake keys discarded) -/
 def forceKeyUpdate (s : State) : Option State :=
   let _ := Gen.forceKeyUpdateShapeChecked
   if s.life ≠ .est then some s
   else if s.prev.isSome then some s
+  else if unconfirmed s then some s
   else updateKeys s none false
 
 /-- `if let Some(ref mut prev) = self.prev_crypto { prev.update_unacked = false; }` -/
@@ -248,7 +270,8 @@ def send (s : State) : Option (State × Bool × Nat) :=
   | some s2 =>
     match s2.cur with
     | none => none
-    | some g => some ({ s2 with swk := s2.swk + 1 }, s2.phase, g)
+    | some g => some ({ s2 with swk := s2.swk + 1, nextPn := s2.nextPn + 1,
+                                sentLog := (s2.nextPn, g) :: s2.sentLog }, s2.phase, g)
 
 /-- `Timer::Close` arm of `handle_timeout` -/
 def closeArm (s : State) : State :=
@@ -265,8 +288,16 @@ def keyDiscardArm (s : State) : State :=
 /-- `handle_timeout(now)`: the Close and KeyDiscard arms -/
 def timeout (s : State) : State := keyDiscardArm (closeArm s)
 
+/-- an ACK frame of the peer acknowledges our packet `pn` (only its effect on `largest_acked_packet`); `none` = not a
+    packet we sent (quinn answers such an ACK with PROTOCOL_VIOLATION before touching anything: outside this component) -/
+def ackd (s : State) (pn : Nat) : Option State :=
+  if pn < s.nextPn then
+    some { s with largestAcked := some (match s.largestAcked with | some a => if a ≥ pn then a else pn | none => pn) }
+  else none
+
 inductive Op where
   | rx (p : Pkt)
+  | ackd (pn : Nat)
   | update
   | send
   | tick (us : Nat)
@@ -278,6 +309,9 @@ def step (s : State) : Op → Option State
   | .rx p => match handlePacket s p with
     | (_, .panic) => none
     | (s', _) => some s'
+  | .ackd pn => match ackd s pn with
+    | some s' => some s'
+    | none => some s        -- not a packet we sent: the request is refused (`bad-op`), nothing happens
   | .update => forceKeyUpdate s
   | .send => if s.life ≠ .est then some s else (send s).map (·.1)
   | .tick us => some { s with now := s.now + us }
